@@ -20,6 +20,15 @@ class Unsupported(AnalysisBroken):
     pass
 
 
+class DivisionByZero(Unsupported):
+    """a floating-point division whose divisor is exactly zero on the interpreted path (the result is inf or NaN):
+    a finding for rules that can attribute it; otherwise the analysis stops undecided"""
+
+    def __init__(self, msg, where=None):
+        Unsupported.__init__(self, msg)
+        self.where = where
+
+
 class NullDeref(Unsupported):
     """dereference of a null pointer on the interpreted path (a finding for rules that can attribute it)"""
 
@@ -1343,7 +1352,7 @@ class Interp:
                 # symbolic integer division: keep as opaque quotient
                 return Poly.func('idiv', pa) * Poly.func('inv', pb) if False else self._sym_idiv(pa, pb, node)
             if pb.is_const() and pb.const_value() == 0:
-                raise Unsupported('floating division by literal zero at %s' % self.loc(node))
+                raise DivisionByZero('floating division by literal zero at %s' % self.loc(node), self.loc(node))
             if not pb.is_const():
                 self.hooks.on_divide(self, node, pa, pb)
             return pa.div(pb)
